@@ -1,6 +1,6 @@
 (* C09: the minimiser iterator emits exactly the maximal runs of same-minimiser windows. *)
 From Coq Require Import NArith List.
-From KT Require Import Gen.Generated Gen.Alphabet Gen.GeneratedFacts Model.Kmer Proof.MinAbs Proof.MinSpec Proof.MinConc Proof.MinExt Proof.NoSentinel.
+From KT Require Import Gen.Generated Gen.Alphabet Gen.FactsBase Gen.FactTableMinimiser Model.Kmer Proof.MinAbs Proof.MinSpec Proof.MinConc Proof.MinExt Proof.NoSentinel.
 Import ListNotations.
 Open Scope N_scope.
 
